@@ -2,6 +2,7 @@ package keeper
 
 import (
 	"context"
+	"errors"
 
 	sdkmath "cosmossdk.io/math"
 	"github.com/cosmos/cosmos-sdk/telemetry"
@@ -315,7 +316,10 @@ func (s MsgServer) UnbondedOracle(c context.Context, msg *types.MsgUnbondedOracl
 	}
 	delegateAddr := oracle.GetDelegateAddress(s.moduleName)
 	validatorAddr := oracle.GetValidator()
-	if _, err = s.stakingKeeper.GetUnbondingDelegation(ctx, delegateAddr, validatorAddr); err != nil {
+	// the stake must have finished unbonding (it is back in the delegate account)
+	if _, err = s.stakingKeeper.GetUnbondingDelegation(ctx, delegateAddr, validatorAddr); err == nil {
+		return nil, types.ErrInvalid.Wrapf("oracle stake is still unbonding")
+	} else if !errors.Is(err, stakingtypes.ErrNoUnbondingDelegation) {
 		return nil, err
 	}
 	balances := s.bankKeeper.GetAllBalances(ctx, delegateAddr)
